@@ -145,12 +145,28 @@ def bridge_concat(ex, st, new, parts):
         lo = z3.simplify(off)
         body_ = z3.Implies(z3.And(j >= lo, j < lo + ln), new[j] == p_[z3.simplify(j - lo)])
         try:
+            if _contains_ite(new):
+                raise z3.Z3Exception("ite in trigger")  # (z3 would print a warning to stderr before rejecting it)
             assume_theorem(st, z3.ForAll([j], body_, patterns=[new[j]]))
         except z3.Z3Exception:  # the new sequence is an ite / cannot be a trigger
             assume_theorem(st, z3.ForAll([j], body_))
         off = off + ln
     assume_theorem(st, z3.Length(new) == z3.simplify(off))
     return new
+
+
+def _contains_ite(t_):
+    todo, seen_ = [t_], set()
+    while todo:
+        u = todo.pop()
+        if u.get_id() in seen_:
+            continue
+        seen_.add(u.get_id())
+        if z3.is_app(u):
+            if u.decl().kind() == z3.Z3_OP_ITE:
+                return True
+            todo.extend(u.children())
+    return False
 
 
 def assume_theorem(st, f):
